@@ -56,6 +56,12 @@ func runWatch(w *Watcher, script func(notify func(changeSet))) (err error, pan a
 	}()
 	ctx, cancel := context.WithCancel(context.Background())
 	defer cancel()
+	if vWatchCancelAfter == -2 {
+		// the context is already cancelled when Watch is entered (a sibling task
+		// failed during start-up): watching still begins and ends, and when it has
+		// ended every subscriber's channel is closed
+		cancel()
+	}
 	w.watch = func(ctx context.Context, notify func(changeSet)) error {
 		calls := 0
 		script(func(cs changeSet) {
@@ -78,7 +84,7 @@ func runWatch(w *Watcher, script func(notify func(changeSet))) (err error, pan a
 }
 
 // vWatchCancelAfter: the Watch context is cancelled just before this notify
-// call (0-based) of the scripted loop; -1 = never.
+// call (0-based) of the scripted loop; -1 = never; -2 = before Watch is entered.
 var vWatchCancelAfter = -1
 
 // vWatchEndErr is what the scripted OS watch loop ends with: watching ends
@@ -95,7 +101,10 @@ func vSetWatchEnd(id string) {
 	}
 	vWatchCancelAfter = -1
 	if h := vlib.Hash64("cancel/" + id); h%3 == 0 {
-		vWatchCancelAfter = int(h / 3 % 4)
+		vWatchCancelAfter = int(h/3%5) - 1
+		if vWatchCancelAfter == -1 {
+			vWatchCancelAfter = -2 // cancelled before Watch is entered
+		}
 	}
 }
 
